@@ -361,6 +361,16 @@ fn check_vtree(t: &VT, evals: &mut u64) -> Option<(String, String)> {
     None
 }
 
+/// elimination orders: all permutations for small variable sets; identity, reversed and
+/// rotated-by-half for wide ones
+fn elims_for(nv: usize) -> Vec<Vec<usize>> {
+    if nv <= 8 {
+        permutations(nv)
+    } else {
+        vec![(0..nv).collect(), (0..nv).rev().collect(), (0..nv).map(|i| (i + nv / 2) % nv).collect()]
+    }
+}
+
 pub fn run(ctx: &Ctx) -> Report {
     let mut rep = Report::new(
         "CNFs (every sequence/multiset of clause types over <= 3-4 variables: unit, duplicate, tautological, empty clauses, unused indices, disconnected components) x every elimination order: linear/min-fill/FORCE/extended orders are inverse permutations, dtree leaves = clauses, vars = union of children, cutset = shared and not cut above, derived vtree has every CNF variable exactly once; every vtree (all shapes x all labellings, <= 4 leaves quick / 5 thorough) x every node pair: in-order index, lca, prime relation, subtree lookup, variable count; distinct = (input, order); non-trivial = CNF with >= 2 clauses / vtree with >= 3 leaves",
@@ -409,6 +419,20 @@ pub fn run(ctx: &Ctx) -> Report {
         }
         explicit.push((maxk + 1, stars, "stars_components_duplicates_5plus".to_string()));
     }
+    // sparse, large labels: every sequence of <= 2 clauses (and a slice of the 3-clause multisets)
+    // over 3 variables relabelled into wide label spaces
+    {
+        let t3 = clause_types(3);
+        let mut sets = sequences(64, 2);
+        sets.extend(multisets(64, 3).into_iter().filter(|m| m.len() == 3).step_by(ctx.tier.pick(41, 5)));
+        let mut wide: Vec<Vec<Clause>> = Vec::new();
+        for m in [[0usize, 64, 1], [63, 64, 127], [128, 0, 64]] {
+            for s in sets.iter() {
+                wide.push(s.iter().map(|&i| t3[i].iter().map(|&(v, p)| (m[v], p)).collect()).collect());
+            }
+        }
+        explicit.push((4, wide, "n3_relabelled_into_wide_label_spaces".to_string()));
+    }
     for (n, sets, name) in explicit {
         let chunks: Vec<&[Vec<Clause>]> = sets.chunks(if n > 4 { 1 } else { 256 }).collect();
         let fam = par_run(ctx, &chunks, |_, chunk| {
@@ -425,7 +449,7 @@ pub fn run(ctx: &Ctx) -> Report {
                     continue;
                 }
                 let nv = num_vars(clauses);
-                for elim in permutations(nv) {
+                for elim in elims_for(nv) {
                     r.transitions += 1;
                     r.traces += 1;
                     if clauses.len() >= 2 {
